@@ -294,7 +294,7 @@ def handler_types(repo, res):
             for call, _g in o.impl_calls:
                 for i, a in enumerate(call.args):
                     n = a.value if isinstance(a, ast.Starred) else a
-                    if isinstance(n, ast.Name) and _reads_units_of(h.fn, n.id) and not _numpy_strips_first(strips, norm(call.func.value), i, isinstance(a, ast.Starred)) and not _stripped_before(h.fn, n.id, call):
+                    if isinstance(n, ast.Name) and (_reads_units_of(h.fn, n.id) or _reads_units_of(h.fn, _alias_root(h.fn, n.id))) and not _numpy_strips_first(strips, norm(call.func.value), i, isinstance(a, ast.Starred)) and not _stripped_before(h.fn, n.id, call):
                         seen_raw.add((norm(call.func.value), n.id))
         hz = []
         for node, raw, mono in ui.hazards:
@@ -375,6 +375,23 @@ def _numpy_strips_first(strips, npf_text, pos, star):
     if pos >= len(params):
         return False
     return params[pos] in row["stripped"]
+
+
+def _alias_root(fn, name, depth=0):
+    """the name a plain copy was made from: x = y | list(y) | tuple(y) | [v for v in y]  (single definition)"""
+    if depth > 3:
+        return name
+    defs = [n.value for n in walk_no_nested(fn.node) if isinstance(n, ast.Assign) and len(n.targets) == 1 and isinstance(n.targets[0], ast.Name) and n.targets[0].id == name]
+    if len(defs) != 1:
+        return name
+    v = defs[0]
+    if isinstance(v, ast.Call) and norm(v.func) in ("list", "tuple") and len(v.args) == 1:
+        v = v.args[0]
+    if isinstance(v, (ast.ListComp, ast.GeneratorExp)) and len(v.generators) == 1 and not v.generators[0].ifs and isinstance(v.generators[0].target, ast.Name) and isinstance(v.elt, ast.Name) and v.elt.id == v.generators[0].target.id:
+        v = v.generators[0].iter
+    if isinstance(v, ast.Name) and v.id != name:
+        return _alias_root(fn, v.id, depth + 1)
+    return name
 
 
 def _stripped_before(fn, name, call):
@@ -594,6 +611,7 @@ def wrapup_rule(repo, res):
 UO = "unyt/unit_object.py"
 
 MUTANTS = [
+    Mutant("einsum-plain-copy-keeps-units-on", AF, "einsum", "    operands = [np.asarray(op) for op in operands]\n    res = np.einsum._implementation(subscripts, *operands, out=out_view, **kwargs)\n", "    arrays = [op for op in operands]\n    res = np.einsum._implementation(subscripts, *arrays, out=out_view, **kwargs)\n", ("C07-R10",)),
     Mutant("einsum-operands-with-units-on", AF, "einsum", "    operands = [np.asarray(op) for op in operands]\n", "", ("C07-R10",)),
     Mutant("twin-einsum-strips-into-tuple", AF, "einsum", "    operands = [np.asarray(op) for op in operands]\n", "    operands = tuple(np.asarray(op) for op in operands)\n", (), benign=True),
     Mutant("masked-copyto-relabels", AF, "copyto", "        np.copyto._implementation(dst, src.to(dst.units), *args, **kwargs)\n        return\n", "        pass\n", ("C07-R11",)),
